@@ -299,7 +299,12 @@ func (enc *jsonEncoder) AppendString(val string) {
 func (enc *jsonEncoder) AppendTimeLayout(time time.Time, layout string) {
 	enc.addElementSeparator()
 	enc.buf.AppendByte('"')
-	enc.buf.AppendTime(time, layout)
+	// The layout and the zone name are caller-controlled and may contain
+	// characters that need escaping, so format into a scratch buffer first.
+	formatted := bufferpool.Get()
+	formatted.AppendTime(time, layout)
+	enc.safeAddByteString(formatted.Bytes())
+	formatted.Free()
 	enc.buf.AppendByte('"')
 }
 
